@@ -883,9 +883,29 @@ func (c *Compiler) ProcessSubmoduleIncludes(m parse.Node, submodules map[string]
 				c.error(g, err)
 			}
 		}
-
-		m.AddChildren(smod.ChildrenByType(parse.NodeImport)...)
 	}
+
+	// The imports of every submodule reached through a chain of includes
+	// (each taken from the file it is written in, so that the result does
+	// not depend on which submodule is processed first)
+	seen := map[string]bool{m.Name(): true}
+	var walk func(n parse.Node)
+	walk = func(n parse.Node) {
+		for _, i := range n.ChildrenByType(parse.NodeInclude) {
+			smod, ok := submodules[i.Name()]
+			if !ok || seen[i.Name()] {
+				continue
+			}
+			seen[i.Name()] = true
+			for _, imp := range smod.ChildrenByType(parse.NodeImport) {
+				if imp.Root() == smod {
+					m.AddChildren(imp)
+				}
+			}
+			walk(smod)
+		}
+	}
+	walk(m)
 }
 
 func (c *Compiler) ProcessModuleIncludes(m parse.Node, submodules map[string]parse.Node) {
